@@ -59,6 +59,7 @@ Proof.
   destruct (resolver_filter r (rs_name s)) eqn:F; cbn [andb]; [|apply IH].
   pose proof (cache_add_eff_reports now (rs_jitter s) r (rs_cache s)) as CR.
   destruct (cache_add_eff now (rs_jitter s) r (rs_cache s)) as [[c' sg] ce]. cbn [snd] in CR.
+  unfold resolver_report in *.
   destruct (negb (r_ttl r =? 0)%N && negb (existsb (addr_eqb (r_addr r)) (rs_addrs s))) eqn:Rp.
   - match goal with |- context [res_records now rs ?s1] => specialize (IH s1); destruct (res_records now rs s1) as [s2 e2] end.
     cbn [fst snd rs_name rs_addrs rs_active] in *. destruct IH as (I1 & I2 & I3 & I4).
